@@ -3,7 +3,7 @@ import base64
 
 from lib import crcref, mon
 
-SHARDS = 8
+SHARDS = 16
 LEVEL = "fault_enumeration"
 STD = 'ABCDEFGHIJKLMNOPQRSTUVWXYZabcdefghijklmnopqrstuvwxyz0123456789+/'
 URL = 'ABCDEFGHIJKLMNOPQRSTUVWXYZabcdefghijklmnopqrstuvwxyz0123456789-_'
@@ -111,7 +111,7 @@ def run(R):
     for wc in wcs:
         for i, hp in enumerate(hashes(wc)):
             roundtrip(wc, hp)
-    n_sub = (3 if quick else 40)
+    n_sub = (3 if quick else 120)
     for k in range(n_sub):
         v = variants[(k + R.shard) % 8]
         substitutions(rng.choice([-1, 0, rng.randrange(-128, 128)]), rng.randbytes(32) if k else bytes(32), *v)
